@@ -98,22 +98,12 @@ func obsT[K comparable](u *spell.U[K], s sets.Set[K], m mask) (string, string) {
 			return name, fmt.Sprintf("%s yields logical values %v, members %v", name, got.list(), m.list())
 		}
 	}
-	// String: "{" + the members, each rendered by fmt.Sprint on the member itself, separated by one
-	// space, in any order + "}"
+	// String: no format is promised; every member's own rendering must occur in it
 	str := s.String()
-	wantLen := 2
-	for i, v := range s.Slice() {
-		r := fmt.Sprint(v)
-		if !strings.Contains(str, r) {
+	for _, v := range s.Slice() {
+		if r := fmt.Sprint(v); !strings.Contains(str, r) {
 			return "String", fmt.Sprintf("String() = %q does not contain member %q", str, r)
 		}
-		wantLen += len(r)
-		if i > 0 {
-			wantLen++
-		}
-	}
-	if len(str) != wantLen || !strings.HasPrefix(str, "{") || !strings.HasSuffix(str, "}") {
-		return "String", fmt.Sprintf("String() = %q: want the %d members rendered by fmt.Sprint, space-separated, in braces (%d bytes)", str, m.n(), wantLen)
 	}
 	return "", ""
 }
